@@ -225,9 +225,12 @@ def run(rep, thorough, pid):
                 elif clause == "C06:gateway-call-fails" and "do not match any overload" in msg \
                         and any(k_.startswith("class:") and "<" in k_ for k_ in kinds):
                     cls = "ThisOfTemplateSpelledAsCppInMatlab"        # a parameter of the template instantiation's own type
-                elif clause == "C06:gateway-call-fails" and re.search(r"Undefined function or class \S*<", msg) \
-                        and st["ret"].startswith("obj:") and facts.get("tmplclass"):
-                    cls = "ThisOfTemplateSpelledAsCppInMatlab"        # a result of the template instantiation's own type
+                elif clause in ("C06:gateway-call-fails", "C11:gateway-crashed") \
+                        and (re.search(r"Undefined function or class \S*<", msg) or "gateway process died" in msg) \
+                        and any("<" in x for x in (st.get("retcpp") or [])):
+                    # a result of a template instantiation's own type is handed to MATLAB under its C++ spelling; what the
+                    # runtime does with the class-not-found error raised inside create_object is not defined (the mock dies)
+                    cls = "ThisOfTemplateSpelledAsCppInMatlab"
                 rep.violation(clause, cls, {"origin": origin, "text": text, "step": k, "plan_step": st, "observed": o})
     rep.count("traces_validated_against_impl", len(res))
     rep.count("evaluations", len(res))
